@@ -3,9 +3,9 @@
    schedules in the fixed world).  The harness keeps one real device per component, so the
    product is faithful for mixed histories as well.  No proofs here. *)
 From Verif Require Import Base.Prelude Base.Machine.
-From Verif Require Model.Stack Model.StackWire Model.BindSched.
+From Verif Require Model.Stack Model.StackWire Model.StackX Model.BindSched.
 
-Inductive cop := CStack (o : Stack.op) | CSched (o : BindSched.op).
+Inductive cop := CStack (o : StackX.xop) | CSched (o : BindSched.op).
 Inductive cobs := SO (o : Stack.obs) | BO (o : BindSched.obs).
 
 Definition cst : Type := Stack.st * BindSched.st.
@@ -13,7 +13,7 @@ Definition cinit : cst := (Stack.init, BindSched.init).
 
 Definition cstep (s : cst) (o : cop) : cst * list cobs :=
   match o with
-  | CStack o' => let '(s1, out) := Stack.step (fst s) o' in ((s1, snd s), map SO out)
+  | CStack o' => let '(s1, out) := StackX.xstep (fst s) o' in ((s1, snd s), map SO out)
   | CSched o' => let '(s1, out) := BindSched.step (snd s) o' in ((fst s, s1), map BO out)
   end.
 
@@ -27,7 +27,7 @@ Fixpoint crun (s : cst) (ops : list cop) : cst * list (cop * list cobs) :=
   end.
 
 Definition parse_op (l : list Z) : option cop :=
-  match StackWire.parse_op l with
+  match StackX.parse_xop l with
   | Some o => Some (CStack o)
   | None => match BindSched.parse_op l with Some o => Some (CSched o) | None => None end
   end.
